@@ -301,7 +301,17 @@ impl Ck<'_, '_> {
                 match (cur, &ts[0].1) { (Value::Scalar(s), T::Num(text)) if s.value.as_ref().map(|x| x.to_string()).as_deref() == Some(text) => {}
                     _ => self.fail("nonzero-value", format!("{path}: shown as {}, the program holds {:?}", kind_of(cur), ts[0].1)) }
             }
-            (Ty::CEnum(i), T::CVariant(name)) => { let Value::CEnum(c) = v else { wrong_kind!() };
+            (Ty::CEnum(i), T::CVariant(name)) => {
+                // a fieldless enum with a single variant is described by rustc as a (univariant) Rust enum
+                if let Value::RustEnum(e) = v {
+                    let shown = e.value.as_ref().and_then(|m| m.field_name.clone());
+                    if shown.as_deref() != Some(name) {
+                        let single = self.defs.cenums[*i].variants.len() == 1;
+                        let key = if single && shown.is_none() { "enum-single-variant-shows-no-variant" } else { "cenum-variant" };
+                        self.fail(key, format!("{path}: shown {shown:?}, the program holds {name}")); }
+                    return;
+                }
+                let Value::CEnum(c) = v else { wrong_kind!() };
                 if c.value.as_deref() != Some(name) {
                     let big = self.defs.cenums[*i].variants.iter().any(|x| x.0 == *name && x.1 > i64::MAX as i128);
                     let key = if big && c.value.is_none() { "cenum-discriminant-above-i64-max-not-shown" } else { "cenum-variant" };
@@ -318,7 +328,15 @@ impl Ck<'_, '_> {
                     let key = if wide { "enum-with-128-bit-discriminant-shows-no-variant".to_string() }
                               else if topbit { "enum-unsigned-discriminant-with-top-bit-set-shows-no-variant".to_string() } else { format!("{fam}-no-variant") };
                     self.fail(&key, format!("{path}: no variant shown, the program holds {name}")); return };
-                if m.field_name.as_deref() != Some(name) { self.fail(&format!("{fam}-variant"), format!("{path}: shown variant {:?}, the program holds {name}", m.field_name)); return; }
+                if m.field_name.as_deref() != Some(name) {
+                    // an unsigned tag whose variant keys were filed as NEGATIVE numbers (DW_AT_discr_value read signed): the niche / tag value is never found
+                    let neg_keys = e.type_id.and_then(|t| self.pcx.type_graph.types.get(&t)).map(|d| match d {
+                        TypeDeclaration::RustEnum { discr_type: Some(dm), enumerators, .. } =>
+                            enumerators.keys().any(|k| matches!(k, Some(x) if *x < 0)) && dm.type_ref.and_then(|t| self.pcx.type_graph.types.get(&t))
+                                .map(|d| matches!(d, TypeDeclaration::Scalar(s) if s.encoding.map(|e| e.0) == Some(7))).unwrap_or(false),
+                        _ => false }).unwrap_or(false);
+                    let key = if neg_keys { "enum-unsigned-discriminant-with-top-bit-set-shows-wrong-variant".to_string() } else { format!("{fam}-variant") };
+                    self.fail(&key, format!("{path}: shown variant {:?}, the program holds {name}", m.field_name)); return; }
                 let Value::Struct(s) = &m.value else { self.fail(&format!("{fam}-payload-kind"), format!("{path}: payload shown as {}", kind_of(&m.value))); return };
                 let tys: Vec<(String, Ty)> = match ty {
                     Ty::Opt(inner) => if name == "Some" { vec![("__0".into(), (**inner).clone())] } else { vec![] },
